@@ -1,10 +1,10 @@
 from run import Family
 from props.c09 import COMMON
 
-BOUNDS = {'table growth': 'context-state stack, file-state stack, context table and builtin table: one registration from every (index, capacity) pair the doubling rule produces, index symbolic 0..254',
+BOUNDS = {'table growth': 'context-state stack, file-state stack, context table and builtin table: one registration from every (index, capacity) pair: capacities base..160 by doubling and, above 160, whatever the growth step itself produces; index symbolic 0..254',
           'lines': '23 adversarial concrete lines (empty, bare newline, lone %, %include without a name, control characters, partial keywords) at depth 0 and 1 with the spawn oracle on',
           'find_file': 'PATH_MAX scaled to 24 (hook); file length 0..26, dir length 0..13, one or two search-path elements of length 0..25',
-          'temp_file': 'template length 0..250, caller length 1..300', 'lifecycle': 'two init/register/put/free cycles'}
+          'temp_file': 'template length 0..250, caller length 1..300', 'lifecycle': 'two init/register/put/free cycles; re-initialisation from arbitrary leftover indices and capacities (symbolic)'}
 RULE = 'C11 shapes: (table, capacity class) with symbolic index; (line, depth); (file, dir, path lengths); (template length, buffer length).'
 ASSUMPTIONS = ['process creation = system()/popen()/fork() stubs that assert the input asked for it', 'mkstemp() uniqueness is its own contract (trusted); the umask in force, the template and the fchmod mode are checked',
                'path and file-name bytes are concrete (lengths are the subject: the copies are strlen()-sized)', 'whole-file byte-level fuzz of spifconf_parse is outside: lines reaching the expander are C10\'s texts']
@@ -20,10 +20,14 @@ def families(tier):
             f.add('C11/grow/%s/cap=%d,idx=%d..%d' % (wn, cap, lo, cap - 2), 'h_grow', which, cap, lo, cap - 2)
             f.add('C11/grow/%s/cap=%d,idx=%d' % (wn, cap, cap - 1), 'h_grow', which, cap, cap - 1, cap - 1)
             lo, cap = cap, cap * 2
+        # above 160: the class the growth step of the code itself produces from a full 160-entry table
+        for a, b in ((160, 206), (207, 253), (254, 254)):
+            f.add('C11/grow/%s/cap=grown-from-160,idx=%d..%d' % (wn, a, b), 'h_grow', which, -160, a, b)
     for w in range(23):
         for depth in (0, 1):
             f.add('C11/line/%d,depth=%d' % (w, depth), 'h_line', w, depth)
     f.add('C11/lifecycle', 'h_lifecycle')
+    f.add('C11/reinit-from-any-leftover-state', 'h_reinit')
     for fl in (0, 1, 10, 21, 22, 23, 24, 26):
         for dl in (0, 1, 12, 13):
             for p1 in (0, 1, 11, 23, 25):
